@@ -442,7 +442,7 @@ func specIsHelperName(name string) bool {
 //@   ensures[C08,C10] read-is-raw: (len(prompt) == 0 ==> appended(c.code, old(c.code), "read -r " + specHelperName(old(c.varCounter)))) && (len(prompt) > 0 ==> appended(c.code, old(c.code), "read -r -p \"" + prompt + "\" " + specHelperName(old(c.varCounter))))
 //
 //@ func (*converter).Copy
-//@   ensures[C03] helper-call-then-length: appended(c.code, old(c.code), "_sch " + specName(len(c.funcs) > 0, c.funcCounter, destination, global) + " " + source, specAssign(specName(len(c.funcs) > 0, c.funcCounter, specHelperName(old(c.varCounter)), false), "$(eval \"echo \\${#${" + specName(len(c.funcs) > 0, c.funcCounter, destination, global) + "}[@]}\")")) && err == nil
+//@   ensures[C03] helper-call-then-the-number-of-copied-elements: appended(c.code, old(c.code), "_sch " + specName(len(c.funcs) > 0, c.funcCounter, destination, global) + " " + source, specAssign(specName(len(c.funcs) > 0, c.funcCounter, specHelperName(old(c.varCounter)), false), "$(eval \"echo \\${#" + source + "[@]}\")")) && err == nil
 //@   ensures[C03,C16] helper-flagged: c.sliceCopyHelperRequired
 //@   ensures[C03,C10] result-is-the-fresh-helper: result == specRef(specName(len(c.funcs) > 0, c.funcCounter, specHelperName(old(c.varCounter)), false)) && c.varCounter == old(c.varCounter) + 1
 //
